@@ -272,6 +272,13 @@ func (m *Manager) manageReader() {
 			case m.pkts <- pkt:
 				m.pdone.Recv()
 
+				// wait for the invoked stream to be registered before reading
+				// on, so that the packets that follow are dispatched to it
+				// instead of racing with its creation.
+				if pkt.Kind == drpcwire.KindInvoke && !m.sbuf.Wait(curr.ID()) {
+					return
+				}
+
 			case <-m.sigs.term.Signal():
 				return
 			}
